@@ -1,42 +1,56 @@
 #!/usr/bin/env python3
-"""run_seeded.py [ID-or-dir ...]: apply each seeded change to /repo, run the property's quick check, undo it.
-Prints one line per change: CAUGHT (exit 1 with VIOLATION) / MISSED (exit 0) / INFRA (exit 2)."""
-import json, os, subprocess, sys, glob, time
-sel = sys.argv[1:]
+"""run_seeded.py [--benign] [-j N] [ID-or-dir ...]: apply each seeded change to a scratch copy of /repo (never /repo itself),
+run the property's quick check against that copy (VERIF_REPO), remove the copy.
+Prints one line per change: CAUGHT (exit 1 with VIOLATION) / MISSED (exit 0) / INFRA (exit 2).
+With --benign the changes come from /verif/benign/ (changes under which the property still holds) and the
+verdicts read QUIET (exit 0) / ALARM (exit 1)."""
+import json, os, subprocess, sys, glob, time, shutil, tempfile
+from concurrent.futures import ThreadPoolExecutor
+args = sys.argv[1:]
+benign = bool(args) and args[0] == "--benign"
+if benign:
+    args = args[1:]
+jobs = 1
+if args and args[0] == "-j":
+    jobs = int(args[1]); args = args[2:]
+sel = args
 tier = os.environ.get("SEED_TIER", "quick")
-dirs = sorted(glob.glob("/verif/seeded/*/"))
-rows = []
-for d in dirs:
+dirs = sorted(glob.glob("/verif/benign/*/" if benign else "/verif/seeded/*/"))
+ncpu = os.cpu_count() or 16
+workers = os.environ.get("VERIF_WORKERS") or str(max(4, ncpu // jobs))
+
+
+def one(d):
     name = os.path.basename(d.rstrip("/"))
-    if sel and not any(name.startswith(s) for s in sel):
-        continue
     meta = json.load(open(d + "meta.json"))
     prop = meta.get("breaks") or meta.get("property")
     if meta.get("status") == "retired":
-        print(name, prop, "RETIRED (no longer breaks the property on the current tree; see meta.json)")
-        continue
-    st = subprocess.run(["git", "-C", "/repo", "status", "--porcelain"], capture_output=True, text=True).stdout.strip()
-    if st:
-        print("refusing: /repo is dirty:\n" + st); sys.exit(2)
-    p = subprocess.run(["git", "-C", "/repo", "apply", d + "patch.diff"], capture_output=True, text=True)
-    if p.returncode != 0:
-        print(name, prop, "PATCH-DOES-NOT-APPLY", p.stderr.strip()[:200]); continue
-    t0 = time.time()
+        return dict(seed=name, property=prop, verdict="RETIRED", sigs=[], line="%s %s RETIRED (no longer breaks the property on the current tree; see meta.json)" % (name, prop))
+    scratch = tempfile.mkdtemp(prefix="verif-seedrepo-")
     try:
+        copy = os.path.join(scratch, "repo")
+        subprocess.run(["rsync", "-a", "--exclude", ".git", "/repo/", copy + "/"], check=True)
+        p = subprocess.run(["git", "apply", d + "patch.diff"], capture_output=True, text=True, cwd=copy)
+        if p.returncode != 0:
+            return dict(seed=name, property=prop, verdict="PATCH-DOES-NOT-APPLY", sigs=[], line="%s %s PATCH-DOES-NOT-APPLY %s" % (name, prop, p.stderr.strip()[:200]))
+        t0 = time.time()
+        rdir = os.path.join(scratch, "replays")
         q = subprocess.run(["/verif/check", prop, tier], capture_output=True, text=True, cwd="/verif",
-                           env=dict(os.environ, VERIF_EVIDENCE_DIR="/tmp/verif-seeded-evidence"))
+                           env=dict(os.environ, VERIF_REPO=copy, VERIF_WORKERS=workers, VERIF_EVIDENCE_DIR=os.path.join(scratch, "evidence"), VERIF_REPLAY_DIR=rdir))
+        sigs = [l.strip() for l in q.stdout.splitlines() if l.strip().startswith("check=")]
+        verdict = ({0: "QUIET", 1: "ALARM", 2: "INFRA"} if benign else {0: "MISSED", 1: "CAUGHT", 2: "INFRA"}).get(q.returncode, "rc=%d" % q.returncode)
+        line = "%s %s %s %.0fs %s" % (name, prop, verdict, time.time() - t0, "; ".join(sigs)[:300])
+        if q.returncode == 2 or (benign and q.returncode == 1):
+            line += "\n" + q.stdout[-2500:]
+        return dict(seed=name, property=prop, verdict=verdict, sigs=sigs, tier=tier, line=line)
     finally:
-        subprocess.run(["git", "-C", "/repo", "checkout", "--", "."], check=True)
-    vio = [l for l in q.stdout.splitlines() if l.startswith("VIOLATION")]
-    sigs = [l.strip() for l in q.stdout.splitlines() if l.strip().startswith("check=")]
-    verdict = {0: "MISSED", 1: "CAUGHT", 2: "INFRA"}.get(q.returncode, "rc=%d" % q.returncode)
-    print(name, prop, verdict, "%.0fs" % (time.time() - t0), "; ".join(sigs)[:300], flush=True)
-    if q.returncode == 2:
-        print(q.stdout[-1500:])
-    rows.append(dict(seed=name, property=prop, verdict=verdict, sigs=sigs, tier=tier))
-    # replay files of seeded runs are not findings on the real tree
-    for l in vio:
-        path = l.split("replay=")[1].split()[0]
-        if os.path.exists(path):
-            os.remove(path)
-json.dump(rows, open("/verif/seeded/last_run.json", "w"), indent=1)
+        shutil.rmtree(scratch, ignore_errors=True)
+
+
+todo = [d for d in dirs if not sel or any(os.path.basename(d.rstrip("/")).startswith(s) for s in sel)]
+rows = []
+with ThreadPoolExecutor(max_workers=jobs) as ex:
+    for row in ex.map(one, todo):
+        print(row.pop("line"), flush=True)
+        rows.append(row)
+json.dump(rows, open("/verif/benign/last_run.json" if benign else "/verif/seeded/last_run.json", "w"), indent=1)
